@@ -181,22 +181,21 @@
                     lemma_mp_odd_and1(window);
                 }
                 @*/
-                /*@ proof { assert(pow2(0) == 1); assert((2 * k0) * pow2(0) == 2 * k0) by (nonlinear_arith) requires pow2(0) == 1; } @*/
+                /*@ let ghost mut kc: int = 2 * k0;
+                    proof { assert(pow2(0) == 1); assert((2 * k0) * pow2(0) == 2 * k0) by (nonlinear_arith) requires pow2(0) == 1; } @*/
                 // val := val^2^(num_bits-1)
                 for _ in 0..num_bits - 1
                 /*@ invariant ring_full(ring), n == ring.normalized_divisor@.len(), __n1 == num_bits - 1, __i1 <= __n1,
-                        k0 >= 0, r == resid(raw, ring),
-                        is_pow(val.0@, ring, r, (2 * k0) * pow2(__i1 as int)),
+                        k0 >= 0, r == resid(raw, ring), kc >= 0, kc == (2 * k0) * pow2(__i1 as int),
+                        is_pow(val.0@, ring, r, kc),
                     decreases __n1 - __i1 @*/
                 {
                     /*@ let ghost v1 = val.0@; @*/
                     sqr_in_place(ring, &mut val, &mut memory);
                     /*@ proof {
-                        let kk = (2 * k0) * pow2(__i1 as int - 1);
+                        lemma_mp_is_pow_mul(v1, v1, val.0@, ring, r, kc, kc);
                         lemma_mp_sqr_exp(2 * k0, __i1 as int);
-                        assert(kk >= 0);
-                        assert(is_pow(v1, ring, r, kk));
-                        lemma_mp_is_pow_mul(v1, v1, val.0@, ring, r, kk, kk);
+                        kc = kc + kc;
                     } @*/
                 }
                 bit -= (num_bits as usize) - 1;
@@ -224,7 +223,7 @@
                 /*@ let ghost v2 = val.0@; @*/
                 val.0.copy_from_slice(prod);
                 /*@ proof {
-                    lemma_mp_is_pow_mul(v2, entry@, val.0@, ring, r, (2 * k0) * pow2(nb - 1), win);
+                    lemma_mp_is_pow_mul(v2, entry@, val.0@, ring, r, kc, win);
                     lemma_mp_window_exp(k0, nb, win, ev / pow2(bit as int));
                 } @*/
             }
